@@ -9,7 +9,7 @@ EXPLANATION = ('Decides from MIR: (R13.1) who-may-call: a vertex enters a tree o
                'written that way: the search interpreted over four scripted connections must return start-root .. goal-root); the ancestor walk '
                'interpreted on a five-vertex tree yields parent first and the root last, included; '
                '(R13.4) every iteration checks the stop flag before sampling and the raised flag reaches only `return Err`; '
-               '(R13.5) conversion keeps every element in order; (R13.6) the predicate gating add_vertex is handed down the call chain unchanged (a wrapper `q == target || pred(q)` is accepted only where every target is already a tree vertex).  Step-length bounds and convexity of limits are numerical and not decided.')
+               '(R13.5) conversion keeps every element in order; (R13.6) the predicate gating add_vertex is handed down the call chain unchanged (a wrapper `q == target || pred(q)` is accepted only where every target is already a tree vertex).  (R13.7) tree bookkeeping by interpretation on small trees: add_vertex appends the given configuration without a parent under the next index (also in the spatial index), add_edge(a, b) makes a the parent of b, the extension links the new vertex below the nearest one and reports the new vertex, the repeated extension stops exactly at Trapped / Reached; (R13.8) no integer cast in the tree search narrows a value that is not provably within the target type (tree sizes are not bounded by the iteration count); (R11.5) `collides` of the robot with shape is the query of its body, unchanged.  Step-length bounds and convexity of limits are numerical and not decided.')
 NOT_DECIDED = 'step-length bound between consecutive nodes; in-limit interpolation (numerical consequences of the extend formula)'
 ASSUMPTIONS = ['kdtree / Vec operations behave as documented']
 
